@@ -3,7 +3,7 @@
     of Gen/C16_Fields.v), Model/C16_Heap.v (copy / deepcopy), Model/C16_Codec.v (VCF import, data-frame codecs). *)
 From Coq Require Import String PrimFloat Permutation Sorted.
 From PV Require Import Lib.Common Lib.FloatK Lib.C16_Spec Model.C16_Store Model.C16_Heap Model.C16_Codec Gen.C16_Fields
-                       Proofs.C16_Utf8 Proofs.C16_Store Proofs.C16_Tables Proofs.C16_Heap Proofs.C16_Codec.
+                       Proofs.C16_Utf8 Proofs.C16_Store Proofs.C16_Nested Proofs.C16_Tables Proofs.C16_Heap Proofs.C16_Codec.
 Local Open Scope Z_scope.
 
 (** ** labels: every string of unicode scalar values survives the UTF-8 storage of HDF5 (non-ASCII labels included) *)
@@ -11,27 +11,50 @@ Theorem C16_utf8_roundtrip : forall s : str, Forall scalar s -> exists b, utf8_e
 Proof. exact utf8_roundtrip. Qed.
 Print Assumptions C16_utf8_roundtrip.
 
-(** ** HDF5: for every class without a dictionary-valued field (all matrices and the phenotyping protocol), every file
-    content [f], every group name [g], every well-typed object [o]: if the overwrite succeeds, the object read back has exactly
-    the attributes of [o] (passed through the class constructor) — whatever was in the file before *)
-Theorem C16_codec_roundtrip_hdf5 : forall (s : cls_spec), In s flat_classes ->
-  forall (o : obj) (nt : Z) (f f' : file) (g : option str),
-  wf_obj s o = true -> to_hdf5 VCur s f g o true = (f', None) -> from_hdf5 s nt f' g = construct s nt (proj s o).
-Proof. intros s Hs o nt f f' g Hwf. apply roundtrip_flat; [apply flat_spec_of; exact Hs | exact Hwf]. Qed.
+(** ** HDF5: for every persistable class (the genomic models with their dictionary of hyper-parameters included), every
+    well-formed file content [f] (every entry's parent group exists, as in any HDF5 file), every group name [g], every
+    well-typed object [o]: if the overwrite succeeds, the object read back has exactly the attributes of [o] (passed through
+    the class constructor) — whatever was in the file before.  [proj_rd] takes the attributes as they are, except that a
+    dictionary comes back as [back_dict]: its members that are not None (see C16_codec_roundtrip_hyperparams_none_refuted),
+    python numbers as numpy scalars; C16_dict_observable shows this is observably the dictionary written *)
+Theorem C16_codec_roundtrip_hdf5 : forall (s : cls_spec), In s persistable ->
+  forall (o : obj) (nt : Z) (f f' : file) (g : option str), parents_ok f ->
+  wf_obj s o = true -> to_hdf5 VCur s f g o true = (f', None) -> from_hdf5 s nt f' g = construct s nt (proj_rd s o).
+Proof. intros s Hs o nt f f' g Hpar Hwf. apply roundtrip_gen; [apply gen_spec_of; exact Hs | exact Hwf | exact Hpar]. Qed.
 Print Assumptions C16_codec_roundtrip_hdf5.
 
-(** after any sequence of overwrites of one location the last object is read back (same classes) *)
-Theorem C16_read_after_writes_partial : forall (s : cls_spec), In s flat_classes ->
+(** after any sequence of overwrites of one location the last object is read back (all persistable classes; before the
+    repair of h5py_File_write_dict, commit 6c7554cf, this held only for the classes without a dictionary-valued field) *)
+Theorem C16_read_after_writes : forall (s : cls_spec), In s persistable ->
+  forall (os : list obj) (o : obj) (f f' : file) (g : option str) (nt : Z), parents_ok f ->
+  wf_obj s o = true -> write_all VCur s f g (os ++ [o]) = (f', None) -> from_hdf5 s nt f' g = construct s nt (proj_rd s o).
+Proof. intros s Hs. apply read_after_writes_gen. apply gen_spec_of. exact Hs. Qed.
+Print Assumptions C16_read_after_writes.
+
+(** a dictionary without None members is read back observably equal (as a finite map; python int/float = numpy scalar) *)
+Theorem C16_dict_observable : forall l, wf_dict l = true -> Forall (fun kv => snd kv <> None) l -> dict_obs l (back_dict l) = true.
+Proof. exact back_dict_observable. Qed.
+Print Assumptions C16_dict_observable.
+
+(** for the classes without a dictionary-valued field the file may be any list of entries, and the attributes come back
+    literally *)
+Theorem C16_read_after_writes_flat : forall (s : cls_spec), In s flat_classes ->
   forall (os : list obj) (o : obj) (f f' : file) (g : option str) (nt : Z),
   wf_obj s o = true -> write_all VCur s f g (os ++ [o]) = (f', None) -> from_hdf5 s nt f' g = construct s nt (proj s o).
-Proof. intros s Hs. apply read_after_writes_flat. apply flat_spec_of. exact Hs. Qed.
-Print Assumptions C16_read_after_writes_partial.
+Proof.
+  intros s Hs os o f f' g nt Hwf. apply read_after_writes_flat; [apply flat_spec_of; exact Hs|].
+  apply wf_obj_flat_of; [apply flat_spec_of; exact Hs | exact Hwf].
+Qed.
+Print Assumptions C16_read_after_writes_flat.
 
 (** the hypothesis "the overwrite succeeds" holds whenever the group path does not run through a dataset *)
 Theorem C16_overwrite_succeeds : forall (s : cls_spec), In s flat_classes ->
   forall (o : obj) (f : file) (g : option str), wf_obj s o = true -> g <> Some [] ->
   (forall gn, norm_group g = inl gn -> group_free f (split_path gn)) -> exists f', to_hdf5 VCur s f g o true = (f', None).
-Proof. intros s Hs o f g Hwf Hg Hfree. apply to_hdf5_succeeds; [apply flat_spec_of; exact Hs | exact Hwf | exact Hg | exact Hfree]. Qed.
+Proof.
+  intros s Hs o f g Hwf Hg Hfree. apply to_hdf5_succeeds; [apply flat_spec_of; exact Hs | | exact Hg | exact Hfree].
+  apply wf_obj_flat_of; [apply flat_spec_of; exact Hs | exact Hwf].
+Qed.
 Print Assumptions C16_overwrite_succeeds.
 
 (** the constructor returns complete data unchanged, so "read back" is the object itself *)
@@ -53,6 +76,19 @@ Proof.
   split; [exact exact_nd|]. split; [exact exact_nd_int8|]. split; [exact exact_nd_int|]. split; [exact exact_int|]. split; [exact exact_strs | exact exact_str].
 Qed.
 Print Assumptions C16_typed_values_survive.
+
+(** dictionary members that survive: arrays, python int / float (as numpy scalars), str of unicode scalar values, bytes *)
+Theorem C16_dict_members_survive :
+  (forall t sh d, member_exact (VArr t sh d) = true) /\ (forall z, in_i64 z = true -> member_exact (VInt z) = true)
+  /\ (forall b, member_exact (VFloat b) = true) /\ (forall s0, Forall scalar s0 -> member_exact (VStr s0) = true) /\ (forall b, member_exact (VBytes b) = true).
+Proof.
+  split; [intros; unfold member_exact; cbn; rewrite dtype_eqb_refl, !zl_eqb_refl; reflexivity|].
+  split; [intros z Hz; unfold member_exact; cbn; rewrite Hz; cbn; rewrite Z.eqb_refl; reflexivity|].
+  split; [intros; unfold member_exact; cbn; rewrite Z.eqb_refl; reflexivity|].
+  split; [|intros; unfold member_exact; cbn; apply zl_eqb_refl].
+  intros s0 H. unfold member_exact. cbn [encode]. destruct (utf8_roundtrip s0 H) as [b [E D]]. rewrite E. cbn. rewrite D. cbn. apply zl_eqb_refl.
+Qed.
+Print Assumptions C16_dict_members_survive.
 
 (** the behaviour before commit 5ae6bde7 (None fields skipped): overwriting a labelled genotype matrix with an unlabelled one
     read the old labels back; the code as it stands reads the second object *)
@@ -209,11 +245,14 @@ Print Assumptions C16_codec_roundtrip_absent_labels_refuted.
 
 (** non-vacuity: concrete objects meet the hypotheses; the write succeeds; a variance matrix with sorted labels does round-trip *)
 Example C16_hyps_satisfiable :
-  wf_obj spec_GM w_rich = true /\ wf_obj spec_GM w_poor = true /\ In spec_GM flat_classes
+  (wf_obj spec_ALGM (w_model w_hyper) = true /\ In spec_ALGM persistable /\ Forall (fun kv => snd kv <> None) w_hyper /\ parents_ok []
+   /\ exists f', write_all VCur spec_ALGM [] (Some [109]) [w_model [([120], Some (VInt 1))]; w_model w_hyper] = (f', None))
+  /\ wf_obj spec_GM w_rich = true /\ wf_obj spec_GM w_poor = true /\ In spec_GM flat_classes
   /\ (exists f2, write_all VCur spec_GM [] w_group [w_rich; w_poor] = (f2, None))
   /\ opt_eqb vm_eqb (vm_from_pandas true (vm_to_pandas true w_vm_sorted)) (Some w_vm_sorted) = true
   /\ (exists h' o', class_copy [spec_ALGM] 4 true spec_BV [CArr (VArr TF64 [1; 1] [0])] [("mat"%string, HRef 0%nat)] = Some (h', o')).
 Proof.
+  split; [destruct w_model_wf as [A [B [C D]]]; split; [exact A|]; split; [exact B|]; split; [exact C|]; split; [exact parents_nil | exact D]|].
   destruct w_objs_wf as [A [B C]]. split; [exact A|]. split; [exact B|]. split; [exact C|].
   split; [eexists; vm_compute; reflexivity|]. split; [exact vm_pandas_sorted_ok|]. eexists. eexists. vm_compute. reflexivity.
 Qed.
